@@ -370,9 +370,10 @@ func ledgerAfterGenesis(cfg *genesis.GenesisConfig, addrs []types.Address) (bal 
 	return bal, "ok"
 }
 
-// monitorAccepted: the sentence of the property evaluated on the REAL ledger produced from an ACCEPTED configuration:
-// per declared token the balances add up to TotalSupply (<= MaxSupply), the plasma contract holds exactly the sum of the
-// fusions in QSR, the pillar contract exactly the sum of the stakes in ZNN, the swap contract nothing.
+// monitorAccepted: the sentence of the property (= theorem check_genesis_sound) evaluated on the REAL ledger produced from
+// an ACCEPTED configuration: per declared token the balances add up to TotalSupply (<= MaxSupply, MaxSupply present), every
+// held token is declared, no amount is missing or negative, no address has two entries, the plasma contract holds exactly
+// the sum of the fusions in QSR, the pillar contract exactly the sum of the stakes in ZNN, the swap contract nothing.
 func monitorAccepted(c *Ctx, tag string, cfg *genesis.GenesisConfig) {
 	seen := map[types.Address]bool{}
 	var addrs []types.Address
@@ -416,8 +417,33 @@ func monitorAccepted(c *Ctx, tag string, cfg *genesis.GenesisConfig) {
 		if s.Cmp(t.TotalSupply) != 0 {
 			c.Fail("CheckGenesis accepted (%s) but ledger balances of %x add up to %v, declared TotalSupply %v [%s]", tag, t.TokenStandard[:], s, t.TotalSupply, encodeCfg(cfg))
 		}
-		if t.MaxSupply != nil && t.TotalSupply.Cmp(t.MaxSupply) > 0 {
+		if t.MaxSupply == nil {
+			c.Fail("CheckGenesis accepted (%s) token %x without MaxSupply [%s]", tag, t.TokenStandard[:], encodeCfg(cfg))
+		} else if t.TotalSupply.Cmp(t.MaxSupply) > 0 {
 			c.Fail("CheckGenesis accepted (%s) TotalSupply %v above MaxSupply %v for token %x [%s]", tag, t.TotalSupply, t.MaxSupply, t.TokenStandard[:], encodeCfg(cfg))
+		}
+	}
+	// every token somebody holds is declared (check_genesis_declared)
+	for z, v := range sum {
+		declared := false
+		for _, t := range cfg.TokenConfig.Tokens {
+			declared = declared || t.TokenStandard == z
+		}
+		if !declared && v.Sign() != 0 {
+			c.Fail("CheckGenesis accepted (%s) but the ledger holds %v of token %x, which TokenConfig does not declare [%s]", tag, v, z[:], encodeCfg(cfg))
+		}
+	}
+	// no balance list carries a missing or negative amount, no address two entries (check_genesis_entries_wellformed)
+	entries := map[types.Address]int{}
+	for _, b := range cfg.GenesisBlocks.Blocks {
+		entries[b.Address]++
+		if entries[b.Address] == 2 {
+			c.Fail("CheckGenesis accepted (%s) two genesis entries for address %x [%s]", tag, b.Address.Bytes(), encodeCfg(cfg))
+		}
+		for z, v := range b.BalanceList {
+			if v == nil || v.Sign() < 0 {
+				c.Fail("CheckGenesis accepted (%s) the amount %s of token %x for address %x [%s]", tag, gnAmt(v), z[:], b.Address.Bytes(), encodeCfg(cfg))
+			}
 		}
 	}
 	fused := big.NewInt(0)
